@@ -412,11 +412,16 @@ func Limits(emit func(*Program), deep bool) {
 			emit((&Program{Unlock: []byte{}, Lock: catb(Push([]byte{0x05}), Push(NumEnc(int64(n))), []byte{0x80, 0x75, 0x51}), Flags: fl &^ FGenesis, Kind: "limit-element-num2bin"}).Fix())
 		}
 		for _, n := range []int{9999, 10000, 10001} {
-			if !deep && fl != 0 {
-				continue // after Genesis the 10 000 pushes all execute: thorough tier only
+			// script size: 0 IF <520-byte pushes> <one shorter push> ENDIF 1, exactly n bytes, ~25 opcodes
+			body := []byte{0x00, 0x63}
+			for len(body)+523+3+2 <= n {
+				body = append(body, RawPush(rep(0x33, 520), 2)...)
 			}
-			emit((&Program{Unlock: []byte{}, Lock: catb([]byte{0x51, 0x00, 0x63}, rep(0x51, n-5), []byte{0x68}), Flags: fl, Kind: "limit-script-size"}).Fix())
-			emit((&Program{Unlock: catb(rep(0x51, n-1), []byte{0x51}), Lock: []byte{0x00, 0x63, 0x68, 0x51}, Flags: fl, Kind: "limit-script-size"}).Fix())
+			pad := n - len(body) - 2 - 3
+			body = append(body, RawPush(rep(0x44, pad), 2)...)
+			body = append(body, 0x68, 0x51)
+			emit((&Program{Unlock: []byte{}, Lock: body, Flags: fl, Kind: "limit-script-size"}).Fix())
+			emit((&Program{Unlock: catb(RawPush(rep(0x55, 520), 2), body[2:len(body)-2]), Lock: []byte{0x51}, Flags: fl, Kind: "limit-script-size"}).Fix())
 		}
 		for _, num := range [][]byte{{0xff, 0xff, 0xff, 0x7f}, {0x00, 0x00, 0x00, 0x80, 0x00}, {0xff, 0xff, 0xff, 0xff, 0x7f}} {
 			emit((&Program{Unlock: []byte{}, Lock: catb(Push(num), []byte{0x8b, 0x8b, 0x75, 0x51}), Flags: fl, Kind: "limit-number"}).Fix())
